@@ -219,6 +219,9 @@ def agree(case, r, o):
     return all(("exc" in p["result"]) or not p["result"].get("problems") for p in r["paths"])
 
 
+KNOWN_ONLY_IF_MODEL_AGREES = True
+
+
 def known_finding(case, known):
     """K2: only when every problem reported on every path is the adopted-roll one"""
     return None   # decided per result in common via known_finding_result
